@@ -348,7 +348,7 @@ def job_transform(job):
         job.errors.append(f"floating-point round-trip lemma: {r}")
 
 
-def replay_comparison(model, filt=False, window=None, gap=False):
+def replay_comparison(model, filt=False, window=None, gap=False, other_gap=False):
     """Real plot_production_comparison (matplotlib, Agg) on a small production table whose Days are not 0, 1, 2, ...:
     the three drawn curves against an independent run of the library's forward model on the documented time axis."""
     import warnings
@@ -370,6 +370,8 @@ def replay_comparison(model, filt=False, window=None, gap=False):
     if gap:
         prs[4] = np.nan          # a producing day without a gauge reading: dropped by the filter, with its gas
     data = pd.DataFrame({"Days": days, "Gas": gas, "Pressure": prs})
+    if other_gap:
+        data["Water"] = [5.0, np.nan, 4.0, 3.0, np.nan, 2.0]        # gaps in a column the figure does not use: those days stay
     tau = float(model.get("tau") or 400.0)
     tau = min(max(tau, 50.0), 5000.0)
     M, pi = 20000.0, 4500.0
@@ -408,7 +410,7 @@ def replay_comparison(model, filt=False, window=None, gap=False):
                             "inputs": {"tau": tau}}
 
 
-def job_comparison(job, filt, window=None, gap=False):
+def job_comparison(job, filt, window=None, gap=False, other_gap=False):
     """`gap`: a producing day (Gas > 0) whose pressure reading is missing; with the row filter on it is dropped from every
     curve, its gas included (cumulative production is that of the rows that are drawn)."""
     mod = load_sym("bluebonnet.forecast.forecast_pressure", pd=pd_shim.PD, plt=PltStub, FlowProperties=c18._flow_stub,
@@ -422,6 +424,9 @@ def job_comparison(job, filt, window=None, gap=False):
         prs[1] = pd_shim.NA
     frame = pd_shim.SymFrame()
     frame.cols = {"Days": SymArray(days, "f8"), "Gas": SymArray(gas, "f8"), "Pressure": SymArray(prs, "f8")}
+    if other_gap:
+        # the caller's table has another column (water rate) with a gap on a producing day: the figure does not use it
+        frame.cols["Water"] = SymArray([Q(7), pd_shim.NA] + [Q(7)] * (n - 2), "f8")
     par = c18.ParametersStub()
     tau, M, pi = fresh("tau", pos=True), fresh("M", pos=True), fresh("p_init", pos=True)
     par.add("tau", value=tau)
@@ -455,8 +460,8 @@ def job_comparison(job, filt, window=None, gap=False):
             simulated_with = [e for e in log if e[0] == "simulate"]
             bad = [_same(ax1.lines[0]["x"], ts), _same(ax1.lines[0]["y"], rf[0]), _same(ax1.lines[1]["x"], ts), _same(ax1.lines[1]["y"], cum),
                    _same(ax2.lines[0]["x"], ts), _same(ax2.lines[0]["y"], pshow)]
-        job.prove(f"comparison[filter={filt}{',window=' + str(window) if window else ''}{',a producing day without a pressure reading' if gap else ''}]/curves are (t/tau, simulated recovery), (t/tau, cumulative/M), (t/tau, frac-face pressure)[path{k}]",
-                  pr.pc + [T.b_or(*bad) if ok else T.b_const(True)], bound=f"{n} rows, any data", replay=(replay_comparison, {"filt": filt, "window": window, "gap": gap}))
+        job.prove(f"comparison[filter={filt}{',window=' + str(window) if window else ''}{',a producing day without a pressure reading' if gap else ''}{',a gap in another column' if other_gap else ''}]/curves are (t/tau, simulated recovery), (t/tau, cumulative/M), (t/tau, frac-face pressure)[path{k}]",
+                  pr.pc + [T.b_or(*bad) if ok else T.b_const(True)], bound=f"{n} rows, any data", replay=(replay_comparison, {"filt": filt, "window": window, "gap": gap, "other_gap": other_gap}))
         job.prove(f"comparison[filter={filt}{',window=' + str(window) if window else ''}]/reach[path{k}]", pr.pc, expect="sat")
 
 
@@ -467,7 +472,8 @@ FALLBACK = [(replay_plot_history, {}), (replay_plot, {}), (replay_plot_after_den
 def jobs(tier):
     out = [("profiles", lambda j: job_profiles(j, 3, 4)), ("recovery-plots", lambda j: job_recovery_plots(j, 4)), ("transform", job_transform),
            ("comparison-filter", lambda j: job_comparison(j, True)), ("comparison-nofilter", lambda j: job_comparison(j, False)),
-           ("comparison-window2", lambda j: job_comparison(j, False, 2)), ("comparison-filter-pressure-gap", lambda j: job_comparison(j, True, None, True))]
+           ("comparison-window2", lambda j: job_comparison(j, False, 2)), ("comparison-filter-pressure-gap", lambda j: job_comparison(j, True, None, True)),
+           ("comparison-filter-gap-in-another-column", lambda j: job_comparison(j, True, None, False, True))]
     if tier != "quick":
         out += [("profiles-big", lambda j: job_profiles(j, 4, 7)), ("recovery-plots-6", lambda j: job_recovery_plots(j, 6)),
                 ("profiles-6x12", lambda j: job_profiles(j, 6, 12)), ("recovery-plots-10", lambda j: job_recovery_plots(j, 10)),
